@@ -366,7 +366,301 @@ Proof. intros T fromv H b. split.
     destruct v; try apply total_err. destruct (N.eqb t tag); [apply H|apply total_err].
 Qed.
 
+
+(* ====================================================================== *)
+(* 5. Encoders: no Panic / OutOfFuel for any in-memory value               *)
+(* ====================================================================== *)
+(* mutual induction over header / signature / protected (nested through the counter-signature list) *)
+Section HeaderInd.
+  Variables (Ph : header -> Prop) (Ps : signature -> Prop) (Pp : protected -> Prop).
+  Hypothesis Hh : forall a c ct k iv piv cs rest, Forall Ps cs -> Ph (mkHeader a c ct k iv piv cs rest).
+  Hypothesis Hs : forall p u sg, Pp p -> Ph u -> Ps (mkSignature p u sg).
+  Hypothesis Hp : forall o h, Ph h -> Pp (mkProtected o h).
+  Fixpoint header_ind' (h : header) : Ph h :=
+    match h with
+    | mkHeader a c ct k iv piv cs rest =>
+      Hh a c ct k iv piv cs rest
+         ((fix go (l : list signature) : Forall Ps l :=
+             match l with [] => Forall_nil Ps | s :: r => Forall_cons s (signature_ind' s) (go r) end) cs)
+    end
+  with signature_ind' (s : signature) : Ps s :=
+    match s with mkSignature p u sg => Hs p u sg (protected_ind' p) (header_ind' u) end
+  with protected_ind' (p : protected) : Pp p :=
+    match p with mkProtected o h => Hp o h (header_ind' h) end.
+  Lemma header_mutind : (forall h, Ph h) /\ (forall s, Ps s) /\ (forall p, Pp p).
+  Proof. repeat split; [apply header_ind'|apply signature_ind'|apply protected_ind']. Qed.
+End HeaderInd.
+
+Section RecipientInd.
+  Variable P : recipient -> Prop.
+  Hypothesis H : forall p u ct rs, Forall P rs -> P (mkRecipient p u ct rs).
+  Fixpoint recipient_ind' (r : recipient) : P r :=
+    match r with
+    | mkRecipient p u ct rs =>
+      H p u ct rs ((fix go (l : list recipient) : Forall P l :=
+                      match l with [] => Forall_nil P | x :: t => Forall_cons x (recipient_ind' x) (go t) end) rs)
+    end.
+End RecipientInd.
+
+Lemma emit_rest_total rest : forall seen acc, total (emit_rest rest seen acc).
+Proof. induction rest as [|[l x] r IH]; intros seen acc; cbn [emit_rest]; [apply total_ok|].
+  destruct (label_mem l seen); [apply total_err|apply IH]. Qed.
+Lemma seed_seen_total m : total (seed_seen m).
+Proof. unfold seed_seen. apply mapM_total. intros kv. apply label_from_value_total. Qed.
+Global Hint Resolve emit_rest_total seed_seen_total : tot.
+
+Lemma header_to_value_eq h : header_to_value h =
+  (let m1 := opt_entry H_ALG (h_alg h) regp_to_value
+         ++ (if isnil (h_crit h) then [] else [(VInt H_CRIT, VArray (map reg_to_value (h_crit h)))])
+         ++ opt_entry H_CONTENT_TYPE (h_ctype h) reg_to_value
+         ++ bytes_entry H_KID (h_kid h)
+         ++ bytes_entry H_IV (h_iv h)
+         ++ bytes_entry H_PARTIAL_IV (h_piv h) in
+  do m2 <-
+    match h_csigs h with
+    | [] => Ok m1
+    | [s] => do sv <- signature_to_value s; Ok (m1 ++ [(VInt H_COUNTER_SIG, sv)])
+    | ss => do svs <- mapM signature_to_value ss; Ok (m1 ++ [(VInt H_COUNTER_SIG, VArray svs)])
+    end;
+  do seen <- seed_seen m2;
+  do m <- emit_rest (h_rest h) seen m2;
+  Ok (VMap m)).
+Proof. destruct h; reflexivity. Qed.
+Lemma signature_to_value_eq s : signature_to_value s =
+  (do p <- protected_cbor_bstr (s_prot s); do u <- header_to_value (s_unprot s); Ok (VArray [p; u; VBytes (s_sig s)])).
+Proof. destruct s; reflexivity. Qed.
+Lemma protected_cbor_bstr_eq p : protected_cbor_bstr p =
+  match p_orig p with
+  | Some d => Ok (VBytes d)
+  | None => if header_is_empty (p_hdr p) then Ok (VBytes []) else do v <- header_to_value (p_hdr p); Ok (VBytes (ser v))
+  end.
+Proof. destruct p; reflexivity. Qed.
+
+Lemma header_family_total :
+  (forall h, total (header_to_value h)) /\ (forall s, total (signature_to_value s)) /\
+  (forall p, total (protected_cbor_bstr p)).
+Proof. apply header_mutind.
+  - intros a c ct k iv piv cs rest F. rewrite header_to_value_eq.
+    cbn [h_alg h_crit h_ctype h_kid h_iv h_piv h_csigs h_rest]. cbv zeta.
+    apply bind_total; [|intros m2 _; tot].
+    destruct cs as [|s [|s' r]].
+    + apply total_ok.
+    + apply bind_total; [|intros; apply total_ok]. now inversion F.
+    + apply bind_total; [|intros; apply total_ok]. now apply mapM_total_Forall.
+  - intros p u sg Hp Hu. rewrite signature_to_value_eq. cbn [s_prot s_unprot s_sig].
+    apply bind_total; [exact Hp|]. intros pv _. apply bind_total; [exact Hu|]. intros uv _. apply total_ok.
+  - intros o h Hh. rewrite protected_cbor_bstr_eq. cbn [p_orig p_hdr].
+    destruct o; [apply total_ok|]. destruct (header_is_empty h); [apply total_ok|].
+    apply bind_total; [exact Hh|]. intros; apply total_ok.
+Qed.
+
+Lemma header_to_value_total h : total (header_to_value h). Proof. apply header_family_total. Qed.
+Lemma signature_to_value_total s : total (signature_to_value s). Proof. apply header_family_total. Qed.
+Lemma protected_cbor_bstr_total p : total (protected_cbor_bstr p). Proof. apply header_family_total. Qed.
+Global Hint Resolve header_to_value_total signature_to_value_total protected_cbor_bstr_total : tot.
+
+Lemma CoseRecipient_to_value_eq r : CoseRecipient_to_value r =
+  (do p <- protected_cbor_bstr (r_prot r);
+   do u <- header_to_value (r_unprot r);
+   do tail <- (if isnil (r_recipients r) then Ok []
+               else do rs <- mapM CoseRecipient_to_value (r_recipients r); Ok [VArray rs]);
+   Ok (VArray ([p; u; opt_bytes_value (r_ct r)] ++ tail))).
+Proof. destruct r; reflexivity. Qed.
+
+Lemma CoseRecipient_to_value_total r : total (CoseRecipient_to_value r).
+Proof. induction r as [p u ct rs F] using recipient_ind'. rewrite CoseRecipient_to_value_eq.
+  cbn [r_prot r_unprot r_ct r_recipients].
+  apply bind_total; [apply protected_cbor_bstr_total|]. intros pv _.
+  apply bind_total; [apply header_to_value_total|]. intros uv _.
+  apply bind_total; [|intros; apply total_ok].
+  destruct (isnil rs); [apply total_ok|]. apply bind_total; [|intros; apply total_ok].
+  now apply mapM_total_Forall. Qed.
+Global Hint Resolve CoseRecipient_to_value_total : tot.
+
+Lemma CoseKey_to_value_total k : total (CoseKey_to_value k).
+Proof. unfold CoseKey_to_value. cbv zeta. tot. Qed.
+Global Hint Resolve CoseKey_to_value_total : tot.
+
+Theorem encoders_never_panic :
+  (forall h, total (header_to_value h)) /\
+  (forall s, total (signature_to_value s)) /\
+  (forall p, total (protected_cbor_bstr p)) /\
+  (forall m, total (CoseSign1_to_value m)) /\
+  (forall m, total (CoseSign_to_value m)) /\
+  (forall m, total (CoseMac_to_value m)) /\
+  (forall m, total (CoseMac0_to_value m)) /\
+  (forall m, total (CoseEncrypt_to_value m)) /\
+  (forall m, total (CoseEncrypt0_to_value m)) /\
+  (forall m, total (CoseRecipient_to_value m)) /\
+  (forall k, total (CoseKey_to_value k)) /\
+  (forall ks, total (CoseKeySet_to_value ks)) /\
+  (forall c, total (ClaimsSet_to_value c)) /\
+  (forall p, total (PartyInfo_to_value p)) /\
+  (forall s, total (SuppPubInfo_to_value s)) /\
+  (forall k, total (CoseKdfContext_to_value k)) /\
+  (forall l, total (Label_to_value l)) /\
+  (forall (T : Type) (tov : T -> res value), (forall x, total (tov x)) ->
+     forall x, total (to_vec tov x) /\ forall tag, total (to_tagged_vec tov tag x)).
+Proof. repeat (match goal with |- and _ _ => split end); intros;
+  try solve [auto with tot];
+  try solve [unfold CoseSign1_to_value, CoseSign_to_value, CoseMac_to_value, CoseMac0_to_value,
+      CoseEncrypt_to_value, CoseEncrypt0_to_value, CoseKeySet_to_value, ClaimsSet_to_value,
+      PartyInfo_to_value, SuppPubInfo_to_value, CoseKdfContext_to_value, PartyInfo_to_value,
+      SuppPubInfo_to_value, Label_to_value, to_vec, to_tagged_vec; tot].
+  split; [|intros tag]; unfold to_vec, to_tagged_vec; tot.
+Qed.
+
+(* ====================================================================== *)
+(* 6. Helpers on decoded messages                                          *)
+(* ====================================================================== *)
+(* a protected header decoded from a bstr keeps its wire bytes *)
+Definition retained (p : protected) : Prop := exists d, p_orig p = Some d.
+
+Lemma protected_from_bstr_retained parse v p : protected_from_bstr parse v = Ok p -> retained p.
+Proof. intros H. apply protected_bytes_decoded in H as (d & _ & H & _). now exists d. Qed.
+
+Lemma retained_cbor_bstr p : retained p -> exists b, protected_cbor_bstr p = Ok b.
+Proof. intros [d H]. rewrite protected_cbor_bstr_eq, H. eauto. Qed.
+
+Lemma sig_structure_data_ok c body sign aad pl :
+  retained body -> (forall sp, sign = Some sp -> retained sp) ->
+  exists b, sig_structure_data c body sign aad pl = Ok b.
+Proof. intros Hb Hs. unfold sig_structure_data.
+  destruct (retained_cbor_bstr _ Hb) as [b ->]. cbn [expect bind].
+  destruct sign as [sp|]; cbn [bind]; [|eauto].
+  destruct (retained_cbor_bstr sp (Hs sp eq_refl)) as [x ->]. cbn [expect bind]. eauto. Qed.
+Lemma mac_structure_data_ok c p aad pl : retained p -> exists b, mac_structure_data c p aad pl = Ok b.
+Proof. intros Hp. unfold mac_structure_data. destruct (retained_cbor_bstr _ Hp) as [b ->]. cbn [expect bind]. eauto. Qed.
+Lemma enc_structure_data_ok c p aad : retained p -> exists b, enc_structure_data c p aad = Ok b.
+Proof. intros Hp. unfold enc_structure_data. destruct (retained_cbor_bstr _ Hp) as [b ->]. cbn [expect bind]. eauto. Qed.
+
+Ltac inv_binds H :=
+  repeat (let a := fresh "a" in let E := fresh "E" in apply bind_ok in H as (a & E & H)).
+
+Lemma try_as_array_ok v a : try_as_array v = Ok a -> v = VArray a.
+Proof. destruct v; cbn; congruence. Qed.
+
+Lemma sign1_decoded v m : CoseSign1_from_value v = Ok m -> retained (s1_prot m).
+Proof. unfold CoseSign1_from_value. intros H. apply bind_ok in H as (a & _ & H).
+  destruct (negb _); [discriminate|].
+  destruct a as [|x0 [|x1 [|x2 [|x3 r]]]]; try discriminate.
+  inv_binds H. injection H as <-. cbn [s1_prot]. eapply protected_from_bstr_retained; eassumption. Qed.
+
+Lemma mac0_decoded v m : CoseMac0_from_value v = Ok m -> retained (m0_prot m).
+Proof. unfold CoseMac0_from_value. intros H. apply bind_ok in H as (a & _ & H).
+  destruct (negb _); [discriminate|].
+  destruct a as [|x0 [|x1 [|x2 [|x3 r]]]]; try discriminate.
+  inv_binds H. injection H as <-. cbn [m0_prot]. eapply protected_from_bstr_retained; eassumption. Qed.
+
+Lemma encrypt0_decoded v m : CoseEncrypt0_from_value v = Ok m -> retained (e0_prot m).
+Proof. unfold CoseEncrypt0_from_value. intros H. apply bind_ok in H as (a & _ & H).
+  destruct (negb _); [discriminate|].
+  destruct a as [|x0 [|x1 [|x2 r]]]; try discriminate.
+  inv_binds H. injection H as <-. cbn [e0_prot]. eapply protected_from_bstr_retained; eassumption. Qed.
+
+Lemma mac_decoded v m : CoseMac_from_value v = Ok m -> retained (mc_prot m).
+Proof. unfold CoseMac_from_value. intros H. apply bind_ok in H as (a & _ & H).
+  destruct (negb _); [discriminate|].
+  destruct a as [|x0 [|x1 [|x2 [|x3 [|x4 r]]]]]; try discriminate.
+  inv_binds H. injection H as <-. cbn [mc_prot]. eapply protected_from_bstr_retained; eassumption. Qed.
+
+Lemma encrypt_decoded v m : CoseEncrypt_from_value v = Ok m -> retained (en_prot m).
+Proof. unfold CoseEncrypt_from_value. intros H. apply bind_ok in H as (a & _ & H).
+  destruct (negb _); [discriminate|].
+  destruct a as [|x0 [|x1 [|x2 [|x3 r]]]]; try discriminate.
+  inv_binds H. injection H as <-. cbn [en_prot]. eapply protected_from_bstr_retained; eassumption. Qed.
+
+Lemma recipient_decoded v m : CoseRecipient_from_value v = Ok m -> retained (r_prot m).
+Proof. destruct v; try discriminate. cbn [CoseRecipient_from_value]. intros H.
+  destruct (negb _); [discriminate|].
+  destruct l as [|x0 [|x1 [|x2 r]]]; try discriminate.
+  inv_binds H. injection H as <-. cbn [r_prot]. eapply protected_from_bstr_retained; eassumption. Qed.
+
+Lemma signature_decoded v sg : CoseSignature_from_value v = Ok sg -> retained (s_prot sg).
+Proof. unfold CoseSignature_from_value, signature_from_value. destruct v; try discriminate.
+  cbn [signature_from_value_with]. intros H.
+  destruct (negb _); [discriminate|].
+  destruct l as [|x0 [|x1 [|x2 r]]]; try discriminate.
+  inv_binds H. injection H as <-. cbn [s_prot]. eapply protected_from_bstr_retained; eassumption. Qed.
+
+Lemma map_err_ok {A} (r : res A) e a : map_err r e = Ok a -> r = Ok a.
+Proof. destruct r; cbn; congruence. Qed.
+
+Lemma sign_decoded v m : CoseSign_from_value v = Ok m ->
+  retained (sn_prot m) /\ Forall (fun sg => retained (s_prot sg)) (sn_sigs m).
+Proof. unfold CoseSign_from_value. intros H. apply bind_ok in H as (a & _ & H).
+  destruct (negb _); [discriminate|].
+  destruct a as [|x0 [|x1 [|x2 [|x3 r]]]]; try discriminate.
+  apply bind_ok in H as (sa & _ & H). apply bind_ok in H as (sigs & Es & H).
+  inv_binds H. injection H as <-. cbn [sn_prot sn_sigs]. split.
+  - eapply protected_from_bstr_retained; eassumption.
+  - revert Es. apply mapM_ok_Forall. intros s sg Esg. apply map_err_ok in Esg. eapply signature_decoded; eassumption. Qed.
+
+Lemma ok_not_panic {A} (r : res A) : (exists a, r = Ok a) -> r <> Panic.
+Proof. intros [a ->]. discriminate. Qed.
+
+Theorem helpers_on_decoded_never_panic :
+  (forall v m aad, CoseSign1_from_value v = Ok m -> Sign1_tbs_data m aad <> Panic) /\
+  (forall v m aad pl, CoseSign1_from_value v = Ok m -> s1_payload m = None ->
+      Sign1_tbs_detached_data m pl aad <> Panic) /\
+  (forall v m aad i, CoseSign_from_value v = Ok m -> (i < length (sn_sigs m))%nat ->
+      forall (R : Type) (f : bytes -> bytes -> R), Sign_verify_signature m i aad f <> Panic) /\
+  (forall v m aad, CoseMac_from_value v = Ok m -> mc_payload m <> None -> Mac_tbm m aad <> Panic) /\
+  (forall v m aad, CoseMac0_from_value v = Ok m -> m0_payload m <> None -> Mac0_tbm m aad <> Panic) /\
+  (forall v m aad (R : Type) (f : bytes -> bytes -> R),
+      CoseEncrypt_from_value v = Ok m -> en_ct m <> None -> Encrypt_decrypt m aad f <> Panic) /\
+  (forall v m aad (R : Type) (f : bytes -> bytes -> R),
+      CoseEncrypt0_from_value v = Ok m -> e0_ct m <> None -> Encrypt0_decrypt m aad f <> Panic) /\
+  (forall v m c aad (R : Type) (f : bytes -> bytes -> R),
+      CoseRecipient_from_value v = Ok m -> r_ct m <> None -> is_recipient_context c = true ->
+      Recipient_decrypt m c aad f <> Panic).
+Proof. repeat (match goal with |- and _ _ => split end).
+  - intros v m aad D. apply sign1_decoded in D. apply ok_not_panic.
+    unfold Sign1_tbs_data. apply sig_structure_data_ok; [assumption|discriminate].
+  - intros v m aad pl D N. apply sign1_decoded in D. apply ok_not_panic.
+    unfold Sign1_tbs_detached_data. rewrite N. cbn [issome].
+    apply sig_structure_data_ok; [assumption|discriminate].
+  - intros v m aad i D L R f. apply sign_decoded in D as [Db Ds].
+    destruct (nth_res_in_range _ _ L) as (sg & E1 & E2). apply nth_error_In in E2.
+    rewrite Forall_forall in Ds. specialize (Ds sg E2).
+    unfold Sign_verify_signature. rewrite E1. cbn [bind]. unfold Sign_tbs_data.
+    destruct (sig_structure_data_ok SigCoseSignature (sn_prot m) (Some (s_prot sg)) aad
+                (unwrap_or_empty (sn_payload m)) Db) as [b ->].
+    { intros sp [= <-]. exact Ds. }
+    cbn [bind]. discriminate.
+  - intros v m aad D N. apply mac_decoded in D. unfold Mac_tbm.
+    destruct (mc_payload m) as [pl|]; [|congruence]. apply ok_not_panic. now apply mac_structure_data_ok.
+  - intros v m aad D N. apply mac0_decoded in D. unfold Mac0_tbm.
+    destruct (m0_payload m) as [pl|]; [|congruence]. apply ok_not_panic. now apply mac_structure_data_ok.
+  - intros v m aad R f D N. apply encrypt_decoded in D. unfold Encrypt_decrypt.
+    destruct (en_ct m) as [ct|]; [|congruence].
+    destruct (enc_structure_data_ok EncCoseEncrypt (en_prot m) aad D) as [b ->]. cbn [bind]. discriminate.
+  - intros v m aad R f D N. apply encrypt0_decoded in D. unfold Encrypt0_decrypt.
+    destruct (e0_ct m) as [ct|]; [|congruence].
+    destruct (enc_structure_data_ok EncCoseEncrypt0 (e0_prot m) aad D) as [b ->]. cbn [bind]. discriminate.
+  - intros v m c aad R f D N C. apply recipient_decoded in D. unfold Recipient_decrypt.
+    destruct (r_ct m) as [ct|]; [|congruence]. rewrite C. cbn [negb].
+    destruct (enc_structure_data_ok c (r_prot m) aad D) as [b ->]. cbn [bind]. discriminate.
+Qed.
+
+(* the documented panics, for the record *)
+Theorem documented_panics :
+  (forall m aad, mc_payload m = None -> Mac_tbm m aad = Panic) /\
+  (forall m aad, m0_payload m = None -> Mac0_tbm m aad = Panic) /\
+  (forall m pl aad, s1_payload m <> None -> Sign1_tbs_detached_data m pl aad = Panic) /\
+  (forall (R : Type) m c aad (f : bytes -> bytes -> R),
+      r_ct m <> None -> is_recipient_context c = false -> Recipient_decrypt m c aad f = Panic).
+Proof. repeat (match goal with |- and _ _ => split end).
+  - intros m aad H. unfold Mac_tbm. now rewrite H.
+  - intros m aad H. unfold Mac0_tbm. now rewrite H.
+  - intros m pl aad H. unfold Sign1_tbs_detached_data. destruct (s1_payload m); [reflexivity|congruence].
+  - intros R m c aad f H C. unfold Recipient_decrypt. destruct (r_ct m); [|reflexivity]. now rewrite C.
+Qed.
+
 Print Assumptions header_from_value_total.
 Print Assumptions header_at_total.
 Print Assumptions decoders_total.
 Print Assumptions byte_entry_points_total.
+Print Assumptions encoders_never_panic.
+Print Assumptions helpers_on_decoded_never_panic.
+Print Assumptions documented_panics.
